@@ -20,6 +20,37 @@ const (
 	pdNR         = "<gabi.ProofD>.NonRevocationProof"
 )
 
+// revocationIndexDesc: the descriptor, in fn, of "the revocation attribute index": the result of the unexported
+// helper (method or function, whatever its name) that finds it by scanning the proof's hidden responses and that
+// fn uses to index <gabi.ProofD>.AResponses.
+func revocationIndexDesc(P *Program, fn *ssa.Function) string {
+	def := "call:gabi.(*ProofD).revocationAttrIndex(<gabi.ProofD>)"
+	found := ""
+	allInstrs(fn, func(i ssa.Instruction) {
+		lk, ok := i.(*ssa.Lookup)
+		if !ok || desc(lk.X) != "<gabi.ProofD>.AResponses" {
+			return
+		}
+		c, isCall := lk.Index.(*ssa.Call)
+		if !isCall {
+			return
+		}
+		g := staticCallee(c)
+		if g == nil || g.Blocks == nil || g.Pkg != fn.Pkg || g.Object() == nil || g.Object().Exported() {
+			return
+		}
+		scans := false
+		bindCall(c, g, func() { scans = len(rangeLoopsOver(g, is("<gabi.ProofD>.AResponses"))) > 0 })
+		if scans {
+			found = desc(c)
+		}
+	})
+	if found != "" {
+		return found
+	}
+	return def
+}
+
 // witRoots: the names under which the witness of a proof commitment is visible (the caller's object, the
 // per-proof copy, the same seen as a parameter of a helper).
 var witRoots = map[string]bool{"new:revocation.Witness": true, "<revocation.Witness>": true, "<revocation.witness>": true}
@@ -38,7 +69,7 @@ func init() {
 					}
 					return desc(a.V) == pdNR && a.Want == Nil
 				}
-				idx := "call:gabi.(*ProofD).revocationAttrIndex(<gabi.ProofD>)"
+				idx := revocationIndexDesc(P, fn)
 				mp(P, R, "C11.a", kProofDVWC+":nonrev-verified", "accept with nonrev part => NonRevocationProof.VerifyWithChallenge(pk, challenge) was true", fn, AcceptTrue(0), &MustPass{Exempt: none, Match: func(a Atom) bool {
 					c, ok := callAtom(a, True, kRevVWC)
 					return ok && desc(c.Call.Args[0]) == pdNR && desc(c.Call.Args[1]) == pkD && desc(c.Call.Args[2]) == "arg#2"
@@ -263,7 +294,7 @@ func setExpectedRule(P *Program, R *Report) {
 	if cc == nil {
 		return
 	}
-	idx := "call:gabi.(*ProofD).revocationAttrIndex(<gabi.ProofD>)"
+	idx := revocationIndexDesc(P, cc)
 	none := func(a Atom) bool { return desc(a.V) == pdNR && a.Want == Nil }
 	mp(P, R, rule, kProofDCC+":SetExpected-args", "contribution with a nonrev part => SetExpected(pk, p.C, AResponses[revocation index]) returned nil", cc, AcceptNilErr(1), &MustPass{Exempt: none, Match: func(a Atom) bool {
 		c, ok := callAtom(a, Nil, kSetExpected)
@@ -480,7 +511,24 @@ func mapOrderVerdictRule(P *Program, R *Report) {
 						if strings.Contains(d, "rangekey("+md+")") || strings.Contains(d, md+"[*]") {
 							key := FuncKey(fn)
 							found = append(found, key)
-							R.bad(rule, key+":range("+md+")", "a verifier-side result does not depend on map iteration order", "returns "+d+" for the first qualifying entry met while ranging over the map", P.Pos(ret.Pos()))
+							// the construct is the map ranged over, named in the terms of the verifier entry that
+							// reaches the loop (a helper taking the map as a parameter is the same construct)
+							mdE := md
+							if strings.Contains(md, "arg#") {
+								seenD := map[string]bool{}
+								for _, caller := range fns {
+									for _, c := range callsTo(caller, fn) {
+										bindCall(c, fn, func() { seenD[desc(rg.X)] = true })
+									}
+								}
+								if len(seenD) == 1 {
+									for d2 := range seenD {
+										mdE = d2
+									}
+								}
+							}
+							R.seen(key)
+							R.bad(rule, "verifier:range("+mdE+")", "a verifier-side result does not depend on map iteration order", "returns "+d+" for the first qualifying entry met while ranging over the map", P.Pos(ret.Pos()))
 						}
 					}
 				}
